@@ -31,6 +31,8 @@ import (
 type Case struct {
 	Op     string  // sign renew rekey revoke revokemtls sshsign sshrenew sshrekey sshrevoke acme | src
 	E, A   int     // enriching / authorizing webhooks configured on the provisioner
+	CH, N  int     `json:",omitempty"` // SCEP challenge / notifying webhooks
+	CRL    bool    `json:",omitempty"` // crl.enabled + generateOnRevoke
 	NoDB   bool    `json:",omitempty"` // the authority runs without a database (db.SimpleDB)
 	Chk    int     // index of the in-process check made to fail by the request's content, -1 = none
 	Faults []Fault `json:",omitempty"`
@@ -54,7 +56,8 @@ func (k *Case) render() string {
 			subs = append(subs, f.Sub)
 		}
 	}
-	return fmt.Sprintf("run op=%s e=%d a=%d db=%s chk=%s faults=%s sub=%s", k.Op, k.E, k.A, c.B(!k.NoDB), chk, c.List(fs), c.List(subs)) + cs
+	return fmt.Sprintf("run op=%s e=%d a=%d ch=%d n=%d crl=%s db=%s chk=%s faults=%s sub=%s", k.Op, k.E, k.A, k.CH, k.N, c.B(k.CRL),
+		c.B(!k.NoDB), chk, c.List(fs), c.List(subs)) + cs
 }
 
 func hasToken(op string) bool {
@@ -73,14 +76,29 @@ func hasToken(op string) bool {
 // A failure is decisive unless it is a read whose error the code may ignore, or a webhook
 // attempt with a retryable failure that is followed by a further attempt at the same kind of
 // webhook (the later attempt decides).
-func failClosed(cl, got string, trace []string, stored, rev, tok int, reuse string, noDB bool) string {
+func failClosed(cl, got string, trace, ids []string, stored, rev, tok int, reuse string, noDB bool) string {
 	if cl == "ok" {
+		asked, allowed := false, false
+		for _, ev := range trace {
+			if stepOf(ev) == "challenge" {
+				asked = true
+				allowed = allowed || ev == "challenge:ok"
+			}
+		}
+		if asked && !allowed { // SCEP: no challenge webhook accepted the challenge
+			return "BROKEN"
+		}
 		for i, ev := range trace {
 			st, o := stepOf(ev), ev[strings.LastIndex(ev, ":")+1:]
-			if o == "ok" || st == "readCert" || st == "readData" {
+			if o == "ok" || st == "readCert" || st == "readData" || st == "notify" {
 				continue
 			}
-			if (st == "enrich" || st == "authorize") && o == "error" && i+1 < len(trace) && stepOf(trace[i+1]) == st {
+			if st == "challenge" && o == "deny" { // one SCEP challenge webhook saying no; another must allow
+				continue
+			}
+			// a retryable failure is repaired only by a further attempt at the very same endpoint
+			if (st == "enrich" || st == "authorize" || st == "challenge") && o == "error" && i+1 < len(trace) &&
+				i+1 < len(ids) && ids[i] != "" && ids[i+1] == ids[i] {
 				continue
 			}
 			return "BROKEN"
@@ -120,6 +138,9 @@ func runCase(k *Case) (res result) {
 	if k.Op == "acme" {
 		return runACME(k)
 	}
+	if k.Op == "scep" {
+		return runSCEP(k)
+	}
 	e, err := newEnv(k)
 	if err != nil {
 		return result{out: "setup-failed"}
@@ -136,6 +157,7 @@ func runCase(k *Case) (res result) {
 	e.rec.start(k.Faults)
 	r := e.do(q)
 	ev := e.rec.stop()
+	ids := e.rec.endpoints()
 	after := e.snapshot()
 	reuse := "na"
 	if hasToken(k.Op) {
@@ -156,14 +178,16 @@ func runCase(k *Case) (res result) {
 	stored, rev := d("x509_certs")+d("ssh_certs"), d("revoked_x509_certs")+d("revoked_ssh_certs")
 	out := fmt.Sprintf("%s got=%s tok=%d stored=%d data=%d rev=%d reuse=%s fc=%s trace=%s", cl, r.got(),
 		d("used_ott"), stored, d("x509_certs_data"), rev, reuse,
-		failClosed(cl, r.got(), ev, stored, rev, d("used_ott"), reuse, k.NoDB), c.List(ev))
+		failClosed(cl, r.got(), ev, ids, stored, rev, d("used_ott"), reuse, k.NoDB), c.List(ev))
 	return result{out: out, trace: ev}
 }
 
 // faultKinds lists the failure kinds that can be realised at a step of the given kind.
 func faultKinds(step string) []Fault {
 	switch step {
-	case "useToken", "storeRev", "acmeStoreCert", "acmeIndex", "acmeUpdateOrder":
+	case "acmeNonceUse":
+		return []Fault{{Kind: "error"}, {Kind: "timeout"}}
+	case "useToken", "storeRev", "acmeStoreCert", "acmeIndex", "acmeUpdateOrder", "acmeNonceNew":
 		return []Fault{{Kind: "error"}, {Kind: "timeout"}, {Kind: "deny"}}
 	case "isRevoked":
 		return []Fault{{Kind: "error"}, {Kind: "timeout"}, {Kind: "deny"}, {Kind: "malformed"}}
@@ -173,9 +197,13 @@ func faultKinds(step string) []Fault {
 		return []Fault{{Kind: "error"}, {Kind: "timeout"}, {Kind: "malformed"}}
 	case "store":
 		return []Fault{{Kind: "error"}, {Kind: "timeout"}}
-	case "enrich", "authorize":
-		return []Fault{{Kind: "error", Sub: "5xx"}, {Kind: "error", Sub: "refused"}, {Kind: "deny", Sub: "deny"},
-			{Kind: "deny", Sub: "4xx"}, {Kind: "malformed"}, {Kind: "timeout"}}
+	case "casSign", "casRevoke", "casCRL", "crlStore":
+		return []Fault{{Kind: "error"}, {Kind: "timeout"}}
+	case "crlRead", "crlList":
+		return []Fault{{Kind: "error"}, {Kind: "malformed"}}
+	case "enrich", "authorize", "challenge", "notify":
+		return []Fault{{Kind: "error", Sub: "5xx"}, {Kind: "error", Sub: "refused"}, {Kind: "deny"},
+			{Kind: "malformed", Sub: "4xx"}, {Kind: "malformed", Sub: "garbage"}, {Kind: "timeout"}}
 	}
 	return []Fault{{Kind: "error"}}
 }
@@ -188,27 +216,45 @@ func stepOf(ev string) string {
 }
 
 type scenario struct {
-	Op   string
-	E, A int
-	NoDB bool
-	Chks []int // indices of the in-process decisions the request content can make fail
+	Op       string
+	E, A     int
+	CH, N    int
+	CRL      bool
+	NoDB     bool
+	Chks     []int // indices of the in-process decisions the request content can make fail
+	Thorough bool  // only in the thorough tier
+}
+
+func (s scenario) newCase(chk int, fs ...Fault) *Case {
+	return &Case{Op: s.Op, E: s.E, A: s.A, CH: s.CH, N: s.N, CRL: s.CRL, NoDB: s.NoDB, Chk: chk, Faults: fs}
 }
 
 var scenarios = []scenario{
-	{"sign", 0, 0, false, []int{0, 1, 2}}, {"sign", 2, 1, false, []int{0, 1, 2}},
-	{"renew", 0, 0, false, nil}, {"rekey", 0, 0, false, nil},
-	{"revoke", 0, 0, false, []int{0}}, {"revokemtls", 0, 0, false, nil},
+	{Op: "sign", Chks: []int{0, 1, 2}}, {Op: "sign", E: 2, A: 1, Chks: []int{0, 1, 2}},
+	{Op: "renew"}, {Op: "rekey"},
+	{Op: "revoke", Chks: []int{0}}, {Op: "revokemtls"},
+	// crl.enabled + generateOnRevoke: the CRL is regenerated after the revocation is recorded
+	{Op: "revoke", CRL: true}, {Op: "revokemtls", CRL: true},
 	// sshsign: 0 token, 1 options, (2 policy), (3 signing), 4 certificate validators
-	{"sshsign", 0, 0, false, []int{0, 1, 4}}, {"sshsign", 1, 2, false, []int{0, 1, 4}},
-	{"sshrenew", 0, 0, false, []int{0}}, {"sshrekey", 0, 0, false, []int{0}}, {"sshrevoke", 0, 0, false, []int{0}},
-	{"acme", 0, 0, false, []int{0}}, {"acme", 1, 1, false, []int{0}},
+	{Op: "sshsign", Chks: []int{0, 1, 4}}, {Op: "sshsign", E: 1, A: 2, Chks: []int{0, 1, 4}},
+	{Op: "sshrenew", Chks: []int{0}}, {Op: "sshrekey", Chks: []int{0}}, {Op: "sshrevoke", Chks: []int{0}},
+	{Op: "sshrevoke", CRL: true},
+	// acme: 0 JWS shape, 1 signature / payload, 2 order ownership, 3 CSR vs identifiers
+	{Op: "acme", Chks: []int{3}}, {Op: "acme", E: 1, A: 1, Chks: []int{3}},
+	// SCEP: 0 parse+decrypt, (1 static challenge when ch=0), then AuthorizeSign, request
+	// validators, template/policy, encryption of the reply (fails for an EC requester), signing
+	{Op: "scep", Chks: []int{1, 5}}, {Op: "scep", CH: 2, N: 1, Chks: []int{4}}, {Op: "scep", E: 1, A: 1, CH: 1, N: 2},
 	// no database: db.SimpleDB (ErrNotImplemented is tolerated when storing, not when revoking)
-	{"sign", 1, 1, true, []int{0, 2}}, {"renew", 0, 0, true, nil}, {"revoke", 0, 0, true, nil}, {"revokemtls", 0, 0, true, nil},
-	{"sshsign", 0, 1, true, []int{4}}, {"sshrenew", 0, 0, true, nil}, {"sshrevoke", 0, 0, true, nil},
+	{Op: "sign", E: 1, A: 1, NoDB: true, Chks: []int{0, 2}}, {Op: "renew", NoDB: true}, {Op: "revoke", NoDB: true},
+	{Op: "revokemtls", NoDB: true}, {Op: "sshsign", A: 1, NoDB: true, Chks: []int{4}}, {Op: "sshrenew", NoDB: true},
+	{Op: "sshrevoke", NoDB: true},
+	// thorough: larger webhook configurations as well
+	{Op: "sign", E: 2, A: 2, Thorough: true}, {Op: "sshsign", E: 2, A: 2, Thorough: true}, {Op: "acme", E: 2, A: 1, Thorough: true},
+	{Op: "sign", E: 2, A: 1, NoDB: true, Thorough: true}, {Op: "scep", E: 1, A: 1, CH: 3, N: 2, Thorough: true},
 }
 
 var srcFns = []string{"authorizeToken", "authorizeSign", "signX509", "authorizeRenew", "renewContext", "Revoke",
-	"signSSH", "renewSSH", "rekeySSH", "Finalize", "DoWithContext"}
+	"signSSH", "renewSSH", "rekeySSH", "Finalize", "FinalizeOrder", "PKIOperation", "SignCSR", "Validate", "DoWithContext"}
 
 func runAll(ks []*Case, workers int) []result {
 	out := make([]result, len(ks))
@@ -292,20 +338,17 @@ func main() {
 
 	// 2. fault-free runs: learn each scenario's sequence of external calls
 	var scs []scenario
-	all := scenarios
-	if *pairs { // thorough: larger webhook configurations as well
-		all = append(append([]scenario{}, scenarios...),
-			scenario{"sign", 2, 2, false, nil}, scenario{"sshsign", 2, 2, false, nil}, scenario{"acme", 2, 1, false, nil},
-			scenario{"sign", 2, 1, true, nil})
-	}
-	for _, s := range all {
+	for _, s := range scenarios {
+		if s.Thorough && !*pairs {
+			continue
+		}
 		if *only == "" || *only == s.Op {
 			scs = append(scs, s)
 		}
 	}
 	var base []*Case
 	for _, s := range scs {
-		base = append(base, &Case{Op: s.Op, E: s.E, A: s.A, NoDB: s.NoDB, Chk: -1})
+		base = append(base, s.newCase(-1))
 	}
 	baseRes := emitAll(base)
 
@@ -314,10 +357,10 @@ func main() {
 	var ks []*Case
 	for i, s := range scs {
 		tr := baseRes[i].trace
-		mk := func(fs ...Fault) *Case { return &Case{Op: s.Op, E: s.E, A: s.A, NoDB: s.NoDB, Chk: -1, Faults: fs} }
+		mk := func(fs ...Fault) *Case { return s.newCase(-1, fs...) }
 		at := func(p int, f Fault) Fault { f.Pos = p; return f }
 		for _, chk := range s.Chks {
-			ks = append(ks, &Case{Op: s.Op, E: s.E, A: s.A, NoDB: s.NoDB, Chk: chk})
+			ks = append(ks, s.newCase(chk))
 		}
 		// every position, every kind
 		for p, ev := range tr {
@@ -327,7 +370,7 @@ func main() {
 		}
 		// a webhook attempt that fails retryably is followed by a second attempt at p+1
 		for p, ev := range tr {
-			if st := stepOf(ev); st == "enrich" || st == "authorize" {
+			if st := stepOf(ev); st == "enrich" || st == "authorize" || st == "challenge" || st == "notify" {
 				for _, f2 := range faultKinds(st) {
 					ks = append(ks, mk(at(p, Fault{Kind: "error", Sub: "5xx"}), at(p+1, f2)))
 				}
@@ -336,7 +379,7 @@ func main() {
 		}
 		// a check failing in a request that also meets a storage fault
 		if len(s.Chks) > 0 && len(tr) > 0 {
-			ks = append(ks, &Case{Op: s.Op, E: s.E, A: s.A, NoDB: s.NoDB, Chk: s.Chks[len(s.Chks)-1], Faults: []Fault{at(0, Fault{Kind: "timeout"})}})
+			ks = append(ks, s.newCase(s.Chks[len(s.Chks)-1], at(0, Fault{Kind: "timeout"})))
 		}
 		// pairs of positions (positions after the first fault may name different calls, or none)
 		if *pairs {
